@@ -390,6 +390,8 @@ CHECKS = {
         stages=[
             mc("small-simd", "MC_C10.tla", "MC_C10_small.cfg", replay_cmd="replay-contains", nondeterministic=True),
             mc("small-scalar", "MC_C10.tla", "MC_C10_small.cfg", replay_cmd="replay-contains", replay_env={"WIREFILTER_USE_AVX2": "0"}, nondeterministic=True),
+            mc("small-with-nul-simd", "MC_C10.tla", "MC_C10_small0.cfg", replay_cmd="replay-contains", nondeterministic=True),
+            mc("small-with-nul-scalar", "MC_C10.tla", "MC_C10_small0.cfg", replay_cmd="replay-contains", replay_env={"WIREFILTER_USE_AVX2": "0"}, nondeterministic=True),
             mc("struct-simd", "MC_C10.tla", dict(quick="MC_C10_struct_quick.cfg", thorough="MC_C10_struct_thorough.cfg"), replay_cmd="replay-contains", nondeterministic=True),
             mc("struct-scalar", "MC_C10.tla", dict(quick="MC_C10_struct_quick.cfg", thorough="MC_C10_struct_thorough.cfg"), replay_cmd="replay-contains", replay_env={"WIREFILTER_USE_AVX2": "0"}, nondeterministic=True),
             trace("random-simd", "Trace_Contains", ["gen-contains"], 3000, 150000, shards=SH, nondeterministic=True),
